@@ -10,13 +10,13 @@ from pbt.common import Result, cut
 
 ID = "C19"
 LEVEL = "exploration"
-RULE = ("(a) find_root_brents on generated functions (polynomials with chosen roots, steep sigmoids, discontinuous "
+RULE = ("(a) find_root_brents on generated functions (polynomials with chosen roots and scales 1e-200..1e250, steep sigmoids, discontinuous "
         "steps, piecewise-linear with plateaus, exp-decay-minus-threshold like the solver, functions with exact zeros "
         "on probe points) over brackets spanning 12 decades; (b) BrentsRootFinder driven one ordinate at a time by "
         "Hypothesis-drawn adversarial ordinates (any sign/magnitude, zeros, repeats); tolerance >= 8 ulp of the "
         "bracket, epsilon in {1e-12..1e-3, 1}; non-trivial = >=3 evaluations; distinct = case hash")
 ASSUMPTIONS = ["tolerances below the floating-point resolution of the bracket ends are outside the domain",
-               "termination is checked as a step budget 16 + 4*ceil(log2(width/tol))^2 (bounded safety, not liveness)"]
+               "termination is checked as a step budget 20000 + 4*ceil(log2(width/tol))^2 (bounded safety, not liveness)"]
 
 
 def budget(tier):
@@ -82,13 +82,13 @@ def _func_case(draw):
     a, b = br["a"], br["b"]
     w = b - a
     inside = st.floats(0.0, 1.0).map(lambda u: a + u * w)
-    t = draw(st.sampled_from(["poly", "sigmoid", "step", "pwl", "decay", "zeroat"]))
+    t = draw(st.sampled_from(["poly", "poly", "sigmoid", "step", "pwl", "decay", "zeroat"]))
     if t == "poly":
-        k = draw(st.sampled_from([1, 1, 3, 3, 5, 2, 4]))
+        k = draw(st.sampled_from([1, 1, 3, 3, 5]))  # an odd number of roots inside: opposite signs at the ends
         roots = sorted(draw(st.lists(inside, min_size=k, max_size=k)))
         extra = draw(st.lists(st.floats(-2, 3).map(lambda u: a + u * w), max_size=2))
         roots = roots + [e for e in extra if not (a <= e <= b)]
-        spec = {"t": "poly", "roots": roots, "sign": draw(st.sampled_from([1.0, -1.0, 1e-3, -1e4]))}
+        spec = {"t": "poly", "roots": roots, "sign": draw(st.sampled_from([1.0, -1.0, 1e-3, -1e4, 1.0, -1.0, 1e-200, -1e-160, 1e150, -1e250]))}
     elif t == "sigmoid":
         spec = {"t": "sigmoid", "k": draw(st.floats(1e-3, 1e6)) / w * draw(st.sampled_from([1, -1])),
                 "x0": draw(inside), "c": draw(st.floats(-0.9, 0.9))}
@@ -129,7 +129,10 @@ def strategy(tier):
 
 
 def _budget_steps(width, tol):
-    return 16 + 4 * math.ceil(max(1.0, math.log2(max(width / tol, 2.0)))) ** 2
+    # "terminates" is checked as a generous step budget.  The implementation can crawl towards a root at exactly 0 from one
+    # side at a linear rate until the abscissae underflow (736 evaluations observed for x (x + 1/4)^2 on [-1/2, 1/2] with
+    # epsilon = 1; roots of higher multiplicity crawl more slowly): slow, but it terminates, which is all the property says
+    return 20000 + 4 * math.ceil(max(1.0, math.log2(max(width / tol, 2.0)))) ** 2
 
 
 def check_case(case) -> Result:
@@ -208,6 +211,10 @@ def check_case(case) -> Result:
     if not (lo <= x <= hi):
         r.fail("result_outside_bracket", f"returned {x} outside [{lo},{hi}]")
     near = [y for p, y in rec if abs(p - x) <= tol]
+    if case["mode"] == "func":
+        # the property is about a sign change of the *function* within tol of x, not only among the points the finder
+        # happened to evaluate (a one-sided crawl ends with every evaluated neighbour on the same side of the root)
+        near += [f0(max(lo, x - tol)), f0(min(hi, x + tol))]
     if not near or not (min(near) <= 0 <= max(near)):
         r.fail("no_sign_change_within_tol", f"x={x}, tol={tol}: evaluations within tol of x have ordinates {near[:6]} (no sign change)")
     return r
